@@ -52,9 +52,29 @@ def _prepare(scratch, names=None):
         shutil.copy(lock, os.path.join(scratch, "kani", "Cargo.lock"))
 
 
+_QUAL = {}
+
+
+def _qualified(name):
+    """module::name of a harness (the module is the file of kani/src that defines it)"""
+    if not _QUAL:
+        srcdir = os.path.join(driver.VERIF, "kani", "src")
+        for fn in os.listdir(srcdir):
+            if fn == "lib.rs" or not fn.endswith(".rs"):
+                continue
+            with open(os.path.join(srcdir, fn)) as f:
+                txt = f.read()
+            for m in re.finditer(r"#\[kani::proof\]\s*(?:#\[kani::unwind\(\d+\)\]\s*)?fn (\w+)", txt):
+                _QUAL[m.group(1)] = fn[:-3] + "::" + m.group(1)
+            for m in re.finditer(r"(?m)^be_check!\((\w+),", txt):
+                _QUAL[m.group(1)] = fn[:-3] + "::" + m.group(1)
+    return _QUAL.get(name, name)
+
+
 def _run_one(scratch, h, timeout):
     env = dict(os.environ, CARGO_NET_OFFLINE="true", CARGO_TARGET_DIR=os.path.join(scratch, "target"))
-    cmd = ["cargo", "kani", "--harness", h["name"], "--output-format", "terse"] + h.get("args", [])
+    # --exact: `--harness X` alone is a substring filter (std_splitn_model would also run ..._utf8 and ..._n7)
+    cmd = ["cargo", "kani", "--harness", _qualified(h["name"]), "--exact", "--output-format", "terse"] + h.get("args", [])
     t0 = time.time()
     try:
         def _limits():
